@@ -364,6 +364,88 @@ func runChild(c *cli.Ctx) error {
 				panicMsg.Store("WithLabelValues blocks forever after testutil.ToFloat64 on the same vector")
 			}
 		}
+		// contention on the float accumulators: amounts on a dyadic grid, so the exact sum is representable and every
+		// order of additions gives it; a lost or doubled update shows in the total (counter, gauge, vec child)
+		{
+			fc := prometheus.NewCounter(prometheus.CounterOpts{Name: "frac_c"})
+			fg := prometheus.NewGauge(prometheus.GaugeOpts{Name: "frac_g"})
+			fv := prometheus.NewCounterVec(prometheus.CounterOpts{Name: "frac_v"}, []string{"a"})
+			nG, per := runtime.GOMAXPROCS(0), 20000
+			if nG < 4 {
+				nG = 4
+			}
+			var wgF sync.WaitGroup
+			startF := make(chan struct{})
+			for g := 0; g < nG; g++ {
+				wgF.Add(1)
+				go func() {
+					defer wgF.Done()
+					<-startF
+					for i := 0; i < per; i++ {
+						fc.Add(0.25)
+						fg.Add(0.5)
+						fg.Sub(0.25)
+						fv.WithLabelValues("x").Add(0.125)
+					}
+				}()
+			}
+			close(startF)
+			wgF.Wait()
+			atomic.AddInt64(&totalOps, int64(4*nG*per))
+			n := float64(nG * per)
+			if got := testutil.ToFloat64(fc); got != 0.25*n {
+				raceViolations++
+				panicMsg.Store(fmt.Sprintf("%d goroutines x %d x Counter.Add(0.25): counter shows %v, want exactly %v", nG, per, got, 0.25*n))
+			}
+			if got := testutil.ToFloat64(fg); got != 0.25*n {
+				raceViolations++
+				panicMsg.Store(fmt.Sprintf("%d goroutines x %d x (Gauge.Add(0.5); Gauge.Sub(0.25)): gauge shows %v, want exactly %v", nG, per, got, 0.25*n))
+			}
+			if got := testutil.ToFloat64(fv.WithLabelValues("x")); got != 0.125*n {
+				raceViolations++
+				panicMsg.Store(fmt.Sprintf("%d goroutines x %d x vec child Add(0.125): child shows %v, want exactly %v", nG, per, got, 0.125*n))
+			}
+		}
+		// overlapping WriteToTextfile calls for the same target: every call succeeds and the file is a whole exposition
+		{
+			dir, derr := os.MkdirTemp("", "c10tf")
+			if derr == nil {
+				treg := prometheus.NewRegistry()
+				tc := prometheus.NewCounter(prometheus.CounterOpts{Name: "tf_total", Help: "h"})
+				treg.MustRegister(tc)
+				target := filepath.Join(dir, "app.prom")
+				var wgT sync.WaitGroup
+				var failed int64
+				var firstErr atomic.Value
+				for g := 0; g < 8; g++ {
+					wgT.Add(1)
+					go func() {
+						defer wgT.Done()
+						for i := 0; i < 25; i++ {
+							tc.Inc()
+							if err := prometheus.WriteToTextfile(target, treg); err != nil {
+								atomic.AddInt64(&failed, 1)
+								firstErr.Store(err.Error())
+							}
+						}
+					}()
+				}
+				wgT.Wait()
+				atomic.AddInt64(&totalOps, 200)
+				if failed > 0 {
+					raceViolations++
+					panicMsg.Store(fmt.Sprintf("%d of 200 overlapping WriteToTextfile calls for one target failed without any fault: %v", failed, firstErr.Load()))
+				} else if b, rerr := os.ReadFile(target); rerr != nil || !strings.HasSuffix(string(b), "\n") || !strings.Contains(string(b), "tf_total ") {
+					raceViolations++
+					panicMsg.Store(fmt.Sprintf("after 200 overlapping WriteToTextfile calls the target is not a whole exposition (%v): %q", rerr, string(b)))
+				}
+				if ents, _ := os.ReadDir(dir); len(ents) != 1 {
+					raceViolations++
+					panicMsg.Store(fmt.Sprintf("after 200 overlapping WriteToTextfile calls the directory holds %d entries, want only the target", len(ents)))
+				}
+				os.RemoveAll(dir)
+			}
+		}
 		if raceViolations > 0 {
 			atomic.AddInt64(&panics, 1)
 			panicMsg.Store(fmt.Sprintf("%d race rounds violated their invariant (lost update / duplicate children / two winners of one descriptor / Gather failing / missing documented panic)", raceViolations))
